@@ -502,6 +502,9 @@ class DAGRunConcurrentManager(DAGRunManagerLike):
                 # We must unlock descendants because the next OneOf subgraph should start the process.
                 # Otherwise, the entire subgraph will be locked.
                 await self.__unlock_descendants(node_id)
+
+                # Whoever waits for the outcome of this subgraph (the OneOf) waits on its destination node.
+                await self.__unlock_itself(dag.dest)
                 return None
 
             if self._is_switch(node_id):
